@@ -296,14 +296,14 @@ def fuzzy_series(m0):
 
 
 def c20_case(task):
-    m0, series = task
+    m0, series, huge = task
     d = wsweep.wdir()
     root = os.path.join(d, 'ws')
     names = tq.names_for(series)
     files, patches, lines = tq.workspace_of(m0, series, names)
     out = {'evals': 0, 'violations': [], 'outcomes': {}, 'nontrivial': 0}
     runs = []
-    for fz in (0, 1, 2, 3):
+    for fz in (0, 1, 2, 3) + ((1000, 4294967296, 9223372036854775807, 18446744073709551615) if huge else ()):
         for threads in (1, 2):
             ws.make_ws(root, files, patches, lines)
             o = ws.run_rq(root, ['-a', '-q', '--backup', 'always', '--fuzz', str(fz)], threads=threads, trace=os.path.join(d, 'trace'))
@@ -336,7 +336,9 @@ def run_c20(tier, seed, res):
         series = series[::3]
     series += fuzzy_series(m0)
     acc = wsweep.Acc(res)
-    tasks = [(m0, s) for s in series]
+    # "unaffected by any --fuzz value": absurdly large limits as well, for the fuzzy series and every 10th other one
+    nfz = len(fuzzy_series(m0))
+    tasks = [(m0, s, (i >= len(series) - nfz) or i % 10 == 0) for i, s in enumerate(series)]
     for i, r in enumerate(wsweep.pmap(c20_case, tasks)):
         if i % 97 == 0:
             r = dict(r)
@@ -415,6 +417,11 @@ def run_c11(tier, seed, res):
             fld = ['1', '3', '1', '3']
             fld[pos] = g
             inputs.append(('--- a/f\n+++ b/f\n@@ -%s,%s +%s,%s @@\n a\n-b\n+B\n c\n' % tuple(fld)).encode())
+            # the same with a hunk that cannot match (the failure diagnostics then compute with these numbers)
+            inputs.append(('--- a/f\n+++ b/f\n@@ -%s,%s +%s,%s @@\n a\n-X\n+B\n c\n' % tuple(fld)).encode())
+    # failing hunks in systematic shapes of mismatch: the failure diagnostics (closest match, hints) of the default verbosity
+    for fp in tq.failing_shapes(tq.initial(), 'e/i'):
+        inputs.append(fp.text().replace(b'e/i', b'f'))
     tasks = [('patch', inp, 1 + (i % 2)) for i, inp in enumerate(inputs)]
     maxlen = 2 if tier == 'quick' else 3
     for l in range(1, maxlen + 1):
